@@ -135,6 +135,63 @@ RouteOf(decls, cfg) ==
                reply |-> ReplyKind(decls, itf, e)]]
   IN ConcatSeqs([k \in 1..Len(exposed) |-> PortRoutes(exposed[k])])
 
+(***************************************************************************)
+(* Wiring: the statements the generated source must contain, as a set of   *)
+(* facts (C01/C02/C10 at the level of the generated text; the harness      *)
+(* scans the real .cc into the same vocabulary).  Ports are identified by  *)
+(* their Dezyne name; C++ parameter types are those of the extern the      *)
+(* written type name resolves to from the interface scope.                 *)
+(***************************************************************************)
+CppOf(decls, itf, fm) == decls[Resolve(decls, fm.type, itf.fqn, {"extern"}).i].cpp
+Params(decls, itf, e, withRef) ==
+  [j \in 1..Len(e.formals) |-> [cpp |-> CppOf(decls, itf, e.formals[j]),
+                                ref |-> withRef /\ e.formals[j].dir # "in", name |-> e.formals[j].name]]
+ArgNames(e) == [j \in 1..Len(e.formals) |-> e.formals[j].name]
+InArgNames(e) == LET ins == SelectSeq(e.formals, LAMBDA fm : fm.dir = "in") IN [j \in 1..Len(ins) |-> ins[j].name]
+
+WiringOf(decls, cfg) ==
+  LET enc == decls[CHOOSE i \in IdxFind(decls, cfg.enc, <<>>) : TRUE]
+      P == {enc.ports[k].name : k \in {j \in DOMAIN enc.ports : enc.ports[j].dir = "provides"}}
+      R == PortNames(enc.ports, "requires", FALSE)
+      f == Assignment(cfg.prov, cfg.req, P, R)
+      exposed == {k \in DOMAIN enc.ports : enc.ports[k].dir = "provides" \/ ~enc.ports[k].inj}
+      Facts(k) ==
+        LET p == enc.ports[k]
+            itf == decls[Resolve(decls, p.type, Front(enc.fqn), {"interface"}).i]
+            isMc == cfg.mc.on /\ p.dir = "provides" /\ p.name = cfg.mc.port
+            mts == f[p.name] = "MTS"
+            ev(d) == {j \in DOMAIN itf.events : itf.events[j].dir = d}
+            E(j) == itf.events[j]
+        IN {[k |-> "accessor", port |-> p.name, dir |-> p.dir, strict |-> (IF mts THEN "Mts" ELSE "Sts"), mc |-> isMc,
+             itf |-> itf.fqn, target |-> (IF ~mts THEN "encapsulee" ELSE IF isMc THEN "selector" ELSE "boundary")]}
+           \cup (IF isMc THEN {[k |-> "mc-final", port |-> p.name]}
+                         ELSE {[k |-> "check", port |-> p.name, target |-> (IF mts THEN "boundary" ELSE "encapsulee")]})
+           \cup (IF mts THEN {[k |-> "meta-name", port |-> p.name, side |-> (IF p.dir = "provides" THEN "require" ELSE "provide")],
+                               [k |-> "member", port |-> p.name, init |-> (IF isMc THEN "selector" ELSE "copy")]} ELSE {})
+           \cup (IF mts /\ p.dir = "provides"
+                 THEN {[k |-> "reroute-in", port |-> p.name, mc |-> isMc, event |-> E(j).name, params |-> Params(decls, itf, E(j), TRUE),
+                        captures |-> InArgNames(E(j)), args |-> ArgNames(E(j))] : j \in ev("in")}
+                      \cup (IF isMc
+                            THEN {[k |-> "mc-out", port |-> p.name, event |-> E(j).name, params |-> Params(decls, itf, E(j), FALSE),
+                                   args |-> ArgNames(E(j))] : j \in ev("out")}
+                                 \cup {[k |-> "mc-ref-out", port |-> p.name, event |-> E(j).name] : j \in ev("out")}
+                                 \cup {IF E(j).name = cfg.mc.claim
+                                       THEN [k |-> "client-claim", port |-> p.name, event |-> E(j).name,
+                                             params |-> Params(decls, itf, E(j), TRUE), args |-> ArgNames(E(j)),
+                                             grant |-> decls[Resolve(decls, E(j).reply, itf.fqn, {"enum"}).i].fqn \o <<cfg.mc.grant[1]>>]
+                                       ELSE IF E(j).name = cfg.mc.release
+                                       THEN [k |-> "client-release", port |-> p.name, event |-> E(j).name,
+                                             params |-> Params(decls, itf, E(j), TRUE), args |-> ArgNames(E(j))]
+                                       ELSE [k |-> "client-ref", port |-> p.name, event |-> E(j).name] : j \in ev("in")}
+                            ELSE {[k |-> "ref-out", port |-> p.name, event |-> E(j).name] : j \in ev("out")})
+                 ELSE IF mts
+                 THEN {[k |-> "reroute-out", port |-> p.name, event |-> E(j).name, params |-> Params(decls, itf, E(j), FALSE),
+                        captures |-> InArgNames(E(j)), args |-> ArgNames(E(j))] : j \in ev("out")}
+                      \cup {[k |-> "ref-in", port |-> p.name, event |-> E(j).name] : j \in ev("in")}
+                 ELSE {})
+  IN UNION {Facts(k) : k \in exposed}
+     \cup {[k |-> "check-encapsulee"], [k |-> "parent"], [k |-> "origin", v |-> cfg.origin]}
+
 \* configuration objects are validated when they are constructed, before build is ever called
 ConfigRejected(cfg) == PSCRejected(cfg.prov.sts, cfg.prov.mts) \/ PSCRejected(cfg.req.sts, cfg.req.mts)
                        \/ CfgRejected(cfg.prov)
